@@ -144,11 +144,13 @@ func globalBodies() []body {
 // ---------- contents: what the keys n, s, o are meant to end up as ----------
 
 func contents(thorough bool) []map[string]any {
-	ns := []any{nil, 1.0, 7.0, "x", 1.5}
+	// (quick leaves the non-integral number to part B, where the reduced
+	// contents send n:1.5 through every placement and route)
+	ns := []any{nil, 1.0, 7.0, "x"}
 	ss := []any{nil, "a", "z"}
 	os := []any{nil, obj("k", 1.0), obj("k", 1.0, "extra", 2.0)}
 	if thorough {
-		ns = append(ns, 5.0, 0.0, true)
+		ns = append(ns, 1.5, 5.0, 0.0, true)
 		ss = append(ss, 3.0)
 		os = append(os, obj("k", "v"), "str")
 	}
